@@ -87,6 +87,48 @@ func (ms *modelSession) ask(terms []*smt.Term) []string {
 	return out
 }
 
+// preferSmall tries to pin every slice length occurring in the query to a small bound, so that the
+// counterexample is a small input that can be built completely; the bound is dropped if unsatisfiable.
+func (ms *modelSession) preferSmall() {
+	c := ms.ex.W.C
+	lens := map[int]*smt.Term{}
+	seen := map[int]bool{}
+	var walk func(t *smt.Term)
+	walk = func(t *smt.Term) {
+		if seen[t.ID] {
+			return
+		}
+		seen[t.ID] = true
+		if t.Kind == smt.KApp && t.Op == "s_len" && !t.IsOpen() {
+			lens[t.ID] = t
+		}
+		for _, a := range t.Args {
+			walk(a)
+		}
+	}
+	walk(ms.obl.Guard)
+	walk(ms.obl.Goal)
+	for _, a := range ms.ex.assumes[:ms.obl.NAssume] {
+		walk(a)
+	}
+	if len(lens) == 0 {
+		return
+	}
+	for _, bound := range []int64{6, 16, 64} {
+		var pins []*smt.Term
+		for _, t := range lens {
+			pins = append(pins, c.Le(t, c.IntLit(bound)))
+		}
+		o := *ms.obl
+		o.Guard = c.And(append([]*smt.Term{ms.obl.Guard}, pins...)...)
+		st, _, _ := runSolver(solvers[ms.solver], ms.ex.buildQuery(&o, nil), 10)
+		if st == "sat" {
+			ms.pins = append(ms.pins, pins...)
+			return
+		}
+	}
+}
+
 func (ms *modelSession) litOf(s smt.Sort, v string) *smt.Term {
 	c := ms.ex.W.C
 	switch s {
@@ -227,9 +269,10 @@ func (cz *concretizer) expr(tm *smt.Term, t types.Type, depth int) string {
 			}
 			lo, hi, _, _ := intRange(t)
 			if n.Cmp(lo) < 0 || n.Cmp(hi) >= 0 {
-				cz.notes = append(cz.notes, "model integer outside machine range: "+n.String())
-				cz.ms.fail = true
-				return cz.zero(t)
+				// a value the query left unconstrained (e.g. an untouched array element): wrap it into range
+				span := new(big.Int).Sub(hi, lo)
+				n = new(big.Int).Add(new(big.Int).Mod(new(big.Int).Sub(n, lo), span), lo)
+				cz.notes = append(cz.notes, "unconstrained model integer wrapped into machine range")
 			}
 			return fmt.Sprintf("%s(%s)", cz.typeStr(t), n.String())
 		case u.Info()&types.IsFloat != 0:
@@ -432,6 +475,7 @@ func tryReplay(p *Program, r *OblResult, vdir, replayDir string) *ReplayResult {
 	fn := ex.Fn
 	pkg := pkgOf(fn)
 	ms := &modelSession{ex: ex, obl: r.Obl, solver: solverIdx, cache: map[int]string{}}
+	ms.preferSmall()
 	cz := &concretizer{ms: ms, ex: ex, pkg: pkg, imports: map[string]string{"fmt": "fmt", "testing": "testing"}, objs: map[string]string{}, budget: 4000}
 	defer func() {
 		if rec := recover(); rec != nil {
